@@ -3,6 +3,8 @@ package limits
 import (
 	"fmt"
 	"math/rand/v2"
+	"runtime"
+	"strings"
 	"time"
 
 	"verif/harness/lab/limitlab"
@@ -122,7 +124,13 @@ func runWalletCase(r *mon.Run, c WalletCase) {
 	}
 	countLatency(r, "wallet", p.latency())
 	if m := rig.G.Mark(); m != 0 {
-		r.Violation("wallet-close-returned-before-goroutine-done", fmt.Sprintf("SingleAddressWallet.Close returned while %d calls of its rebroadcast goroutine were still in progress", m), vcase, rig.G.Labels())
+		sig := "wallet-close-returned-before-goroutine-done"
+		if exitPathOnly(rig.G.MarkLabels()) {
+			// the goroutine never joined the thread group: it is on its way
+			// out (log entry, unsubscribe) while Close has already returned
+			sig = "wallet-goroutine-runs-after-close"
+		}
+		r.Violation(sig, fmt.Sprintf("SingleAddressWallet.Close returned while %d calls of its rebroadcast goroutine were still in progress", m), vcase, rig.G.MarkLabels())
 		return
 	}
 	if pan := p.panicked(); pan != nil {
@@ -145,7 +153,12 @@ func runWalletCase(r *mon.Run, c WalletCase) {
 	}
 	time.Sleep(20*us(c.DebounceUs) + 5*time.Millisecond)
 	if am := rig.G.Snap().AfterMark; len(am) > 0 {
-		r.Violation("wallet-background-work-after-close", fmt.Sprintf("%d store/manager/syncer calls were started by the wallet after Close had returned", len(am)), vcase, am)
+		sig := "wallet-goroutine-runs-after-close"
+		if !exitPathOnly(am) {
+			// more than the goroutine's exit path: real work
+			sig = "wallet-background-work-after-close"
+		}
+		r.Violation(sig, fmt.Sprintf("%d store/manager/syncer/logger calls were made by the wallet after Close had returned", len(am)), vcase, am)
 		return
 	}
 	inv, ok := limitlab.Settle(settleBound/3, walletOnly, func(g []limitlab.Goroutine) bool { return len(g) == 0 })
@@ -157,4 +170,111 @@ func runWalletCase(r *mon.Run, c WalletCase) {
 	if parked > 0 || c.Moment == "immediate" || c.Moment == "running" {
 		r.Distinct(fmt.Sprintf("wallet/%s/after%d/debounce%d/double%v", c.Moment, c.ParkAfter, c.DebounceUs, c.Double))
 	}
+}
+
+// WalletImmediateCase closes wallets right after constructing them: the
+// rebroadcast goroutine may not even have been scheduled yet.
+type WalletImmediateCase struct {
+	Phase      string `json:"phase"`
+	Index      int    `json:"index"`
+	Iterations int    `json:"iterations"`
+	// Perturb selects what happens between construction and Close:
+	// 0 nothing, 1 runtime.Gosched, 2 GOMAXPROCS(1) around construction+Close
+	Perturb int    `json:"perturb"`
+	KeySeed uint64 `json:"keySeed"`
+}
+
+func phaseWalletImmediate(r *mon.Run) {
+	for p := 0; p < 3; p++ {
+		c := WalletImmediateCase{Phase: "wallet-immediate", Index: p, Iterations: r.Pick(150, 1500), Perturb: p, KeySeed: r.RNG(0xF800 + uint64(p)).Uint64()}
+		if p == 0 {
+			r.Sample(c)
+		}
+		runWalletImmediate(r, c)
+	}
+}
+
+func runWalletImmediate(r *mon.Run, c WalletImmediateCase) {
+	r.Eval()
+	w := limitlab.NewWorld(uint64(r.Seed)<<16 ^ uint64(c.Index) ^ 0x2F<<40)
+	late := 0
+	var first any
+	for i := 0; i < c.Iterations; i++ {
+		var rig *limitlab.WalletRig
+		var err error
+		var p *pending
+		build := func() {
+			rig, err = w.NewWalletRig(keyFrom(c.KeySeed+uint64(i)), 500*time.Microsecond)
+			if err != nil {
+				return
+			}
+			if c.Perturb == 1 {
+				runtime.Gosched()
+			}
+			p = bounded(func() { rig.W.Close() })
+		}
+		if c.Perturb == 2 {
+			old := runtime.GOMAXPROCS(1)
+			build()
+			runtime.GOMAXPROCS(old)
+		} else {
+			build()
+		}
+		if err != nil {
+			r.Inconclusive("wallet: cannot create wallet: " + err.Error())
+			return
+		}
+		if !p.wait(livenessBound) {
+			r.Violation("wallet-close-timeout", "SingleAddressWallet.Close right after construction did not return within 30 s", c, limitlab.Keys(limitlab.Inventory(walletOnly)))
+			return
+		}
+		countLatency(r, "wallet", p.latency())
+		r.Count("wallet.immediate_closes", 1)
+		lateNow := false
+		if m := rig.G.Mark(); m != 0 {
+			if !exitPathOnly(rig.G.MarkLabels()) {
+				r.Violation("wallet-close-returned-before-goroutine-done", fmt.Sprintf("SingleAddressWallet.Close returned while %d calls of the wallet were still in progress", m), c, rig.G.MarkLabels())
+				return
+			}
+			lateNow = true
+			if first == nil {
+				first = map[string]any{"iteration": i, "inProgressWhenCloseReturned": rig.G.MarkLabels()}
+			}
+		}
+		// the goroutine (if it is still to run) ends by itself; whatever it
+		// does from now on happens after Close returned
+		if _, ok := limitlab.Settle(settleBound, walletOnly, func(g []limitlab.Goroutine) bool { return len(g) == 0 }); !ok {
+			r.Violation("goroutine-left-behind:wallet", "wallet goroutines are still alive after Close returned", c, limitlab.Keys(limitlab.Inventory(walletOnly)))
+			return
+		}
+		if am := rig.G.Snap().AfterMark; len(am) > 0 {
+			if !exitPathOnly(am) {
+				r.Violation("wallet-background-work-after-close", "the wallet called into its store/manager/syncer after Close had returned", c, am)
+				return
+			}
+			lateNow = true
+			if first == nil {
+				first = map[string]any{"iteration": i, "activityAfterCloseReturned": am}
+			}
+		}
+		if lateNow {
+			late++
+		}
+	}
+	r.Count("wallet.immediate_close_goroutine_ran_after_close", late)
+	r.Distinct(fmt.Sprintf("wallet-immediate/perturb%d", c.Perturb))
+	if late > 0 {
+		r.Violation("wallet-goroutine-runs-after-close", fmt.Sprintf("in %d of %d iterations the wallet's rebroadcast goroutine ran after Close had returned (it registers with the thread group only once it is scheduled; it then logs and calls the OnReorg unsubscribe function)", late, c.Iterations), c, first)
+	}
+}
+
+// exitPathOnly reports whether the labels are only what the rebroadcast
+// goroutine does on its way out (log entries, the OnReorg unsubscribe).
+func exitPathOnly(labels []string) bool {
+	for _, l := range labels {
+		if l != "cm.OnReorg-unsubscribe" && !strings.HasPrefix(l, "log:") {
+			return false
+		}
+	}
+	return true
 }
